@@ -644,6 +644,16 @@ def comparison_forms(ctx, fn):
     return out
 
 
+def _wild_roots(form):
+    """`(consumer_group.group_id == group_id)` -> `(_.group_id == group_id)`: the root binding of a field path (not
+    `self`) is replaced by `_`, and the operands of == / != are put in a canonical order afterwards"""
+    w = re.sub(r'\b(?!self\b)[a-z_]\w*((?:\.\w+)+)', lambda m: '_' + m.group(1), form)
+    m = re.fullmatch(r'\((.*) (==|!=) (.*)\)', w)
+    if m and m.group(3) < m.group(1) and '(' not in m.group(1) + m.group(3):
+        w = '(%s %s %s)' % (m.group(3), m.group(2), m.group(1))
+    return w
+
+
 def check_comparisons(ctx, rep, rid, table):
     """table: {fn: [expected canonical comparisons]} — each must still be present; a comparison over the same
     operand pair with a different operator/orientation is a violation; additional comparisons are tolerated."""
@@ -655,9 +665,15 @@ def check_comparisons(ctx, rep, rid, table):
         allforms = set()
         for v in got.values():
             allforms |= v
+        wild = {_wild_roots(f) for f in allforms}
         for form in expected:
             if form in allforms or (form.startswith('re:') and any(re.search(form[3:], f) for f in allforms)):
                 rep.ob(rid, fn, form, True, None, None)
+                continue
+            if not form.startswith('re:') and _wild_roots(form) in wild:
+                # the same fields compared with the same operator, reached through a differently named binding
+                # (a closure parameter renamed or destructured): the same comparison
+                rep.ob(rid, fn, form, True, None, 'matched modulo the name of the binding the fields are reached through')
                 continue
             # find same operand pair
             alt = None
